@@ -182,6 +182,95 @@ fn _kkt_assemble_fill<T: FloatT>(
     }
 }
 
+// verification-only hooks (see /verif); compiled only under the guard cfg
+#[cfg(oxfordcontrol_clarabel_rs_verif)]
+#[allow(missing_docs)]
+pub mod verif_hooks_ka {
+    //! KKT assembly with the list of sparse-expansion maps held in caller-provided storage
+    use super::*;
+    use core::mem::ManuallyDrop;
+
+    /// storage for the expansion maps of `N` second-order cones (meant to live on the caller's stack)
+    pub struct VSocMapStore<const N: usize>([ManuallyDrop<SparseExpansionMap>; N]);
+
+    impl<const N: usize> VSocMapStore<N> {
+        /// one fresh map per sparse-expanded second-order cone, as `SOCExpansionMap::new` builds it
+        pub fn new(dims: [usize; N]) -> Self {
+            Self(core::array::from_fn(|i| {
+                ManuallyDrop::new(SparseExpansionMap::SOCExpansionMap(SOCExpansionMap {
+                    u: vec![0; dims[i]],
+                    v: vec![0; dims[i]],
+                    D: [0; 2],
+                }))
+            }))
+        }
+    }
+
+    /// the real map object produced by the assembly (never dropped: its sparse-map list is a view of a store)
+    pub struct VMapHandle(ManuallyDrop<LDLDataMap>);
+
+    impl VMapHandle {
+        pub fn P(&self) -> &[usize] {
+            &self.0.P
+        }
+        pub fn A(&self) -> &[usize] {
+            &self.0.A
+        }
+        pub fn Hsblocks(&self) -> &[usize] {
+            &self.0.Hsblocks
+        }
+        pub fn diagP(&self) -> &[usize] {
+            &self.0.diagP
+        }
+        pub fn diag_full(&self) -> &[usize] {
+            &self.0.diag_full
+        }
+        pub fn n_sparse(&self) -> usize {
+            self.0.sparse_maps.len()
+        }
+        /// (u, v, D) of the i-th sparse map, which must belong to a second-order cone
+        pub fn soc(&self, i: usize) -> (&[usize], &[usize], [usize; 2]) {
+            match &self.0.sparse_maps[i] {
+                SparseExpansionMap::SOCExpansionMap(s) => (&s.u, &s.v, s.D),
+                _ => panic!("not a second-order cone map"),
+            }
+        }
+    }
+
+    /// `LDLDataMap::new` followed by `assemble_kkt_matrix`, statement for statement, except that the list of
+    /// sparse-expansion maps is a view of `store` instead of a vector pushed cone by cone (all sparse cones
+    /// must be second-order cones, in order, with the dimensions the store was created with)
+    pub fn assemble_kkt_matrix_soc_store<T: FloatT, const N: usize>(
+        P: &CscMatrix<T>,
+        A: &CscMatrix<T>,
+        cones: &CompositeCone<T>,
+        triu: bool,
+        store: &mut VSocMapStore<N>,
+    ) -> (CscMatrix<T>, VMapHandle) {
+        let shape = if triu { MatrixTriangle::Triu } else { MatrixTriangle::Tril };
+        // --- LDLDataMap::new
+        let (m, n) = (A.nrows(), P.nrows());
+        let mapP = vec![0; P.nnz()];
+        let mapA = vec![0; A.nnz()];
+        let diagP = vec![0; n];
+        let Hsblocks = allocate_kkt_Hsblocks::<T, usize>(cones);
+        let sparse_maps: Vec<SparseExpansionMap> =
+            unsafe { Vec::from_raw_parts(store.0.as_mut_ptr() as *mut SparseExpansionMap, N, N) };
+        let diag_full = vec![0; m + n + sparse_maps.pdim()];
+        let mut map = ManuallyDrop::new(LDLDataMap { P: mapP, A: mapA, Hsblocks, sparse_maps, diagP, diag_full });
+        // --- assemble_kkt_matrix
+        let (m, n) = A.size();
+        let p = map.sparse_maps.pdim();
+        let nnz_diagP = P.count_diagonal_entries(MatrixTriangle::Triu);
+        let nnz_Hsblocks = map.Hsblocks.len();
+        let nnzKKT = P.nnz() + n - nnz_diagP + A.nnz() + nnz_Hsblocks + map.sparse_maps.nnz_vec() + p;
+        let mut K = CscMatrix::<T>::spalloc((m + n + p, m + n + p), nnzKKT);
+        _kkt_assemble_colcounts(&mut K, P, A, cones, &map, shape);
+        _kkt_assemble_fill(&mut K, P, A, cones, &mut map, shape);
+        (K, VMapHandle(map))
+    }
+}
+
 #[test]
 fn test_kkt_assembly_upper_lower() {
     let P = CscMatrix::from(&[
